@@ -46,6 +46,94 @@ def source_tie(ctx):
             ctx.broken.append("source tie: %s no longer reads <grant>.sub" % name)
 
 
+def model_case(reg, u, redirect, sub, salt):
+    """the registration record as stored, the hash and host tables the model needs, and the sub the grant got"""
+    st = reg.get("subject_type") or "public"
+    srcs = [x for x in (reg.get("sector_id"), reg.get("sector_identifier_uri"), redirect) if x]
+    hosts = [(x, host(x)) for x in srcs]
+    pre = [u + salt] + [u + h + salt for _, h in hosts]
+    ht = [(x, hashlib.sha256(x.encode()).hexdigest()) for x in pre]
+    return "(%s, %s, mkCreg %s %s %s, %s, %s, %s, %s)" % (
+        coq_list(["(%s, %s)" % (coq_str(a), coq_str(b)) for a, b in ht], "(pystr * pystr)"),
+        coq_list(["(%s, %s)" % (coq_str(a), coq_str(b)) for a, b in hosts], "(pystr * pystr)"),
+        coq_opt(reg.get("subject_type"), coq_str, "pystr"), coq_opt(reg.get("sector_id"), coq_str, "pystr"),
+        coq_opt(reg.get("sector_identifier_uri"), coq_str, "pystr"),
+        coq_str(redirect), coq_str(u), coq_str(salt),
+        "None" if st == "ephemeral" else "(Some %s)" % coq_str(sub))
+
+
+SECTOR_DOCS = {"https://sector.alpha.example/rps.json": ["https://app1.alpha.example/cb", "https://app2.alpha.example/cb"],
+               "https://sector.beta.example:8443/rps.json": ["https://app.beta.example/cb"]}
+DYN_CLIENTS = [("a1", "https://app1.alpha.example/cb", "https://sector.alpha.example/rps.json", "pairwise"),
+               ("a2", "https://app2.alpha.example/cb", "https://sector.alpha.example/rps.json", "pairwise"),
+               ("b", "https://app.beta.example/cb", "https://sector.beta.example:8443/rps.json", "pairwise"),
+               ("solo", "https://solo.gamma.example/cb", None, "pairwise"),
+               ("pub", "https://pub.delta.example/cb", None, "public")]
+
+
+def dynamic_registration(ctx, cases):
+    """clients that registered themselves at the registration endpoint (sector_identifier_uri fetched over a mocked
+    HTTP layer); the ground truth for the sector is what the client ASKED for, not what the provider stored"""
+    import responses
+    rs = sess.RealSession(oidc=True, jwt_access=False)
+    try:
+        salt = rs.sm.get_salt()
+        ep = rs.server.get_endpoint("registration")
+        cid = {}
+        with responses.RequestsMock(assert_all_requests_are_fired=False) as rsps:
+            for uri, doc in SECTOR_DOCS.items():
+                rsps.add("GET", uri, body=json.dumps(doc), status=200, content_type="application/json")
+            for name, ru, sector, st in DYN_CLIENTS:
+                req = {"redirect_uris": [ru], "subject_type": st, "response_types": ["code"], "application_type": "web",
+                       "token_endpoint_auth_method": "client_secret_post", "grant_types": ["authorization_code"]}
+                if sector:
+                    req["sector_identifier_uri"] = sector
+                try:
+                    p = ep.parse_request(json.dumps(req))
+                    r = ep.process_request(p)
+                    ra = r.get("response_args", r)
+                    cid[name] = ra["client_id"]
+                except Exception as e:
+                    ctx.notes.append("dynamic registration of %s failed: %r" % (name, e))
+        subs = {}
+        for u in sess.USERS[:2]:
+            for name, ru, sector, st in DYN_CLIENTS:
+                if name not in cid:
+                    continue
+                o = rs.op_authz(u, cid[name], ["openid"], extra={"redirect_uri": ru})
+                if o[0] != "ok" or not o[1]:
+                    ctx.notes.append("authorization at dynamically registered %s failed: %r" % (name, o))
+                    continue
+                g = rs.grants[rs.tok_grant[o[1][0]]][1]
+                subs[(u, name)] = g.sub
+                rec = {"dynamic": True, "user": u, "client": name, "subject_type": st, "asked_sector": sector, "redirect": ru, "sub": g.sub}
+                ctx.case_seen(rec, True)
+                ctx.count("dynamic:%s" % st)
+                cases.append((model_case(rs.ctx.cdb[cid[name]], u, ru, g.sub, salt), rec))
+                if u in g.sub:
+                    ctx.violation("uid-in-clear", "sub %r contains the user id %r" % (g.sub, u), rec)
+        truth = {name: (st, host(sector or ru)) for name, ru, sector, st in DYN_CLIENTS}
+        for u in sess.USERS[:2]:
+            for a in truth:
+                for b in truth:
+                    if a >= b or (u, a) not in subs or (u, b) not in subs:
+                        continue
+                    (ta, sa), (tb, sb) = truth[a], truth[b]
+                    rec = {"dynamic": True, "user": u, "clients": [a, b], "types": [ta, tb], "sectors": [sa, sb], "subs": [subs[(u, a)], subs[(u, b)]]}
+                    if ta == tb == "pairwise" and sa == sb and subs[(u, a)] != subs[(u, b)]:
+                        ctx.violation("pairwise-same-sector-differs", "pairwise subs differ within sector %s (dynamic registration)" % sa, rec)
+                    if ta == tb == "pairwise" and sa != sb and subs[(u, a)] == subs[(u, b)]:
+                        ctx.violation("pairwise-sectors-equal", "pairwise subs equal across sectors %s / %s (dynamic registration)" % (sa, sb), rec)
+                    if {ta, tb} == {"pairwise", "public"} and subs[(u, a)] == subs[(u, b)]:
+                        ctx.violation("pairwise-equals-public", "the pairwise sub of %s at %s equals the public sub" % (u, a if ta == "pairwise" else b), rec)
+        us = sess.USERS[:2]
+        for name in truth:
+            if (us[0], name) in subs and (us[1], name) in subs and subs[(us[0], name)] == subs[(us[1], name)]:
+                ctx.violation("users-share-sub", "users %s and %s share a sub at %s" % (us[0], us[1], name), {"client": name})
+    finally:
+        rs.close()
+
+
 def run(ctx):
     rng = ctx.rng
     source_tie(ctx)
@@ -113,20 +201,7 @@ def run(ctx):
                         if u in sub:
                             ctx.violation("uid-in-clear", "sub %r contains the user id %r" % (sub, u), rec)
                         # ---- model case
-                        redirect = "https://%s.example.com/cb" % c
-                        st = reg.get("subject_type") or "public"
-                        srcs = [x for x in (reg.get("sector_id"), reg.get("sector_identifier_uri"), redirect) if x]
-                        hosts = [(x, host(x)) for x in srcs]
-                        pre = [u + salt] + [u + h + salt for _, h in hosts]
-                        ht = [(x, hashlib.sha256(x.encode()).hexdigest()) for x in pre]
-                        term = "(%s, %s, mkCreg %s %s %s, %s, %s, %s, %s)" % (
-                            coq_list(["(%s, %s)" % (coq_str(a), coq_str(b)) for a, b in ht], "(pystr * pystr)"),
-                            coq_list(["(%s, %s)" % (coq_str(a), coq_str(b)) for a, b in hosts], "(pystr * pystr)"),
-                            coq_opt(reg.get("subject_type"), coq_str, "pystr"), coq_opt(reg.get("sector_id"), coq_str, "pystr"),
-                            coq_opt(reg.get("sector_identifier_uri"), coq_str, "pystr"),
-                            coq_str(redirect), coq_str(u), coq_str(salt),
-                            "None" if st == "ephemeral" else "(Some %s)" % coq_str(sub))
-                        cases.append((term, rec))
+                        cases.append((model_case(reg, u, "https://%s.example.com/cb" % c, sub, salt), rec))
             # ---- a further authorization request from the same browser (session cookie of the first response replayed),
             #      same client, other state/nonce: a new grant under the live session
             for u in sess.USERS[:2]:
@@ -187,6 +262,7 @@ def run(ctx):
                             ctx.violation("users-share-sub", "users %s and %s share a sub at %s" % (a, b, c), {"client": c})
         finally:
             rs.close()
+    dynamic_registration(ctx, cases)
     ctx.coq_check_cases(["Lib.Base", "Lib.PyStr", "Model.Sub"], "sub_case", "chk_sub", cases, shard=60, label="sub")
 
 
